@@ -563,6 +563,11 @@ def table_layout(context, table, bottom_space, skip_stack, containing_block,
         collapsing_through = False
         return table, resume_at, next_page, adjoining_margins, collapsing_through
 
+    if collapse and has_header and header is None and skip_stack is None:
+        # The header does not fit and is not rendered on the first fragment:
+        # its rows of the border grid are skipped.
+        skipped_rows = len(table.children[0].children)
+
     table = table.copy_with_children(
         ([header] if header is not None else []) +
         new_table_children +
